@@ -116,6 +116,8 @@ def backend_corpus(seed, tier):
         gs.append(('big%d' % i, gram.big_grammar(rnd)))
     for i in range(1 if tier == 'quick' else 3):
         gs.append(('wide%d' % i, gram.wide_grammar(rnd, nt=rnd.randint(56, 62))))
+    for i in range(6 if tier == 'quick' else 40):
+        gs.append(('mark%d' % i, gram.marker_grammar(rnd)))
     n = 300 if tier == 'quick' else 3000
     for i in range(n):
         kind = i % 4
@@ -296,17 +298,31 @@ def replay_oracle(out, variants=genrun.ALL_VARIANTS):
         first = True
         for vn in variants:
             for (mode, payload), raw in out['res'][gname].get(vn, {}).items():
-                if mode != 'run':
+                # every accepted parse: alone, as a member of a history on one parser, and while another parse is in progress
+                if mode == 'run':
+                    comps = [(payload, raw)]
+                elif mode == 'hist':
+                    comps = list(zip(payload.split(','), raw.split(' ; ')))
+                elif mode in ('nest', 'nestr'):
+                    f2 = raw.split(' ; ')
+                    a, b, _k = payload.split(',')
+                    comps = [(a, f2[0]), (b, f2[1])] if len(f2) == 2 and f2[1] != '-' else []
+                else:
                     continue
-                ir = genrun.parse_result(raw)
-                if ir['kind'] != 'A':
-                    continue
-                if first:
-                    text.append(vlib.model_grammar_text('o%d' % gi, d, acts))
-                    first = False
-                reds = ' '.join('%d %d' % (r, max(0, f - 1)) for r, f in zip(ir['reds'], ir['redf']))
-                text.append('V %d %s %d %s\n' % (len(keys), i6check.model_input(g, out['tids'][gname], payload), len(ir['reds']), reds))
-                keys.append((gname, vn, payload, ir))
+                for (inp, rawc) in comps:
+                    try:
+                        ir = genrun.parse_result(rawc)
+                    except Exception:
+                        continue
+                    if ir['kind'] != 'A':
+                        continue
+                    if first:
+                        text.append(vlib.model_grammar_text('o%d' % gi, d, acts))
+                        first = False
+                    ir['mode'] = mode
+                    reds = ' '.join('%d %d' % (r, max(0, f - 1)) for r, f in zip(ir['reds'], ir['redf']))
+                    text.append('V %d %s %d %s\n' % (len(keys), i6check.model_input(g, out['tids'][gname], inp), len(ir['reds']), reds))
+                    keys.append((gname, vn, inp, ir))
     lines = vlib.model_eval_chunks([''.join(t) for t in chunks])
     verdict = {}
     for ln in lines:
